@@ -3,13 +3,15 @@
    geometry (prefix form, integer ordinates = binary64 ordinates scaled by one common power of two per case):
            PE | P x y | L n x1 y1 .. xn yn | A k n1 pts .. nk pts (polygon, k rings, k = 0 empty) | C k g1 .. gk (multi / collection)
    requests (space separated), each printing one token  num/den | none :
+           FD     facet_dist2 A B and dist2 A B (two tokens, one computation)
            D      dist2 A B                F      facet_dist2 A B
            DT     dist2 B A (transposed)   FT     facet_dist2 B A
            H n    hausdorff2 n A B (in units multiplied by n)        HA n / HB n   directed A->B / B->A
            R n    frechet2 n A B   (in units multiplied by n)
            MA     minclear2 A              MB     minclear2 B
            NA i   dist2 (POINT extra_i) A  NB i   dist2 (POINT extra_i) B      (extra point number i, from 0)
-           PP i j squared distance between extra points i and j *)
+           PP i j squared distance between extra points i and j
+   line:   S n    -> the facet sequence ranges start:end of a coordinate sequence of n points (model of addFacetSequences) *)
 let zs = z_of_string
 let rec take_pts n toks acc =
   if n = 0 then (List.rev acc, toks) else
@@ -49,6 +51,7 @@ let () =
         let zn n = z_of_int (int_of_string n) in
         let rec go toks acc = match toks with
           | [] -> List.rev acc
+          | "FD" :: r -> let (f, d) = facet_and_dist2 ga gb in go r (show_o d :: show_o f :: acc)
           | "D" :: r -> go r (show_o (dist2 ga gb) :: acc)
           | "DT" :: r -> go r (show_o (dist2 gb ga) :: acc)
           | "F" :: r -> go r (show_o (facet_dist2 ga gb) :: acc)
@@ -64,6 +67,10 @@ let () =
           | "PP" :: i :: j :: r -> go r ((string_of_z (d2 exa.(int_of_string i) exa.(int_of_string j)) ^ "/1") :: acc)
           | t :: _ -> failwith ("request " ^ t) in
         print_endline (String.concat " " (go (words reqs) []))
+      | [one] when (match words one with ["S"; _] -> true | _ -> false) ->
+        (match words one with
+         | ["S"; n] -> print_endline (String.concat " " (List.map (fun (a, b) -> string_of_z a ^ ":" ^ string_of_z b) (sections (zs n))))
+         | _ -> print_endline "?")
       | _ -> print_endline "?"
     with Failure m -> print_endline ("ERR " ^ m) | Invalid_argument m -> print_endline ("ERR " ^ m))
   done with End_of_file -> ()
